@@ -522,3 +522,21 @@ i-th child with the i-th child, all of them, joined by `&&` -/
 def pairsOK (tbl : List (V × V × List (Nat × Nat) × Bool)) : Bool :=
   tbl.map (·.1) == [.Lambda, .Pi, .Application, .Negation] ++ allBinary ++ [.If] &&
   tbl.all (fun r => r.2.1 == r.1 && r.2.2.1 == pairChildren r.1 && r.2.2.2)
+
+/-! ## Which subterm a type diagnostic points at -/
+
+/-- Every type diagnostic of `type_check_rec` is reported when a `unify` fails, and carries the source range of
+the subterm **whose inferred type** was one of the two sides (`unify(&x_type, …)` ⇒ the range of `x`); the one
+exception is the comparison of the two branches of a conditional, reported at the whole conditional.  And the
+arms report what they are known to report: one site for `Lambda` (domain) and `Negation`, two for `Pi`
+(domain, codomain), `Application` (applicand, argument), `Let` (annotation, definition), each binary
+operator (left, right) and `If` (condition, branches). -/
+def errSitesOK (sites : List (V × List String × List Bool × String)) : Bool :=
+  sites.map (·.1) == [.Lambda, .Pi, .Pi, .Application, .Application, .Let, .Let, .Negation] ++
+      allBinary.flatMap (fun v => [v, v]) ++ [.If, .If] &&
+  sites.all (fun s =>
+    match s.2.1, s.2.2.1 with
+    | [a, b], [ta, tb] =>
+        (ta && a == s.2.2.2) || (tb && b == s.2.2.2) ||
+        (s.1 == .If && ta && tb && a == "then_branch" && b == "else_branch" && s.2.2.2 == "term")
+    | _, _ => false)
